@@ -243,6 +243,7 @@ void Run::setup_world() {
   W.min_delay_us = cfg.min_delay; W.max_delay_us = cfg.max_delay < cfg.min_delay ? cfg.min_delay : cfg.max_delay;
   W.faults_enabled = cfg.faults != 0;
   W.fd_reuse = cfg.knob("fd_reuse") != 0;
+  W.tc_keeps_negative = cfg.knob("tc_keeps_negative") != 0;
   W.stat["cfg.tfo"] = cfg.tfo;
   W.stat["cfg.default_chunking"] = (cfg.knob("default_chunking") && !cfg.knob("reference") && cfg.faults) ? 1 : 0;
   for (auto &s : cfg.servers) {
